@@ -8,6 +8,15 @@
 EXTENDS Wrappers, Json, IOUtils
 Scn == ndJsonDeserialize(IOEnv.VERIF_IN)
 
+(* the per-call transition relation of the control state machine (InflateStreamOps!CallResults), tabulated by TLC from
+   spec/gen/GenInflateStream.tla: <<block_state, wrapper parsed, output staged, input buffered, input offered, room offered, mode>> -> results *)
+IsTab == IF "VERIF_ISTAB" \in DOMAIN IOEnv THEN ndJsonDeserialize(IOEnv.VERIF_ISTAB) ELSE <<>>
+IsRel == TLCEval(UNION {{<<IsTab[i].bs0, IsTab[i].wf0, IsTab[i].pend0, IsTab[i].buf0, IsTab[i].inp, IsTab[i].room, IsTab[i].mode>> \o IsTab[i].ends[j]
+                            : j \in 1..Len(IsTab[i].ends)} : i \in 1..Len(IsTab)})
+(* after an error return only the fact that the model allows an error from this entry state is compared (the parked state is not relied upon) *)
+IsErr == TLCEval({SubSeq(t, 1, 7) : t \in {t \in IsRel : t[12] = "ERR"}})
+RetClass(r) == IF r < 0 THEN "ERR" ELSE IF r = 3 THEN "NEED_DICT" ELSE "OK"
+
 (* crc_flag -> container the spec must parse / verify *)
 RefWrap(m) == CASE m = 1 -> "gzip" [] m = 3 -> "zlib" [] m = 5 -> "zlib_nohdr" [] m = 6 -> "gzip_nohdr" [] OTHER -> "raw"
 ChecksumKind(m) == CASE m \in {1, 2, 6} -> "crc32" [] m \in {3, 4, 5} -> "adler32" [] OTHER -> "none"
@@ -46,10 +55,18 @@ JudgeRun(g, s, ref) ==
             stall == IF idle THEN acc.stall + 1 ELSE 0
             v6 == IF stall >= 2 THEN {<<k, "I6-no-progress-with-input-and-space-available">>} ELSE {}
             v7 == IF acc.finished /\ (c.p # 0 \/ ~fin) THEN {<<k, "I4-call-after-FINISH-had-an-effect">>} ELSE {}
+            \* M2 (conformance with the control state machine InflateStreamOps): the state the streaming call returned in must be one the
+            \* transcribed igzip_inflate.c machine can reach from the state it was entered in (reported as drift, not as a violation)
+            m2app == Len(IsTab) > 0 /\ s.api = 2 /\ "bs0" \in DOMAIN c
+            m2key == <<c.bs0, c.wf0, c.pnd0, c.buf0, IF c.ai > 0 THEN 1 ELSE 0, IF c.ao > 0 THEN 1 ELSE 0, g.wrap>>
+            m2tup == m2key \o <<c.bs, c.wf, c.pnd, c.buf, RetClass(c.ret), IF c.ain > 0 THEN 1 ELSE 0, IF c.p > 0 THEN 1 ELSE 0>>
+            m2 == IF ~m2app THEN {} ELSE IF c.ret < 0 THEN (IF m2key \in IsErr THEN {} ELSE {<<k, "M2-error-return-not-in-the-model">>})
+                  ELSE IF m2tup \in IsRel THEN {} ELSE {<<k, "M2-state-transition-not-in-the-model">>}
+            cov == IF m2app /\ c.ret >= 0 THEN acc.cov \cup {m2tup} ELSE acc.cov
             vx == IF s.expect_ret # 0 /\ ref.tag = "Invalid" /\ c.ret < 0 /\ c.ret # s.expect_ret THEN {<<k, "I3-wrong-error-class-for-single-fault">>} ELSE {}
         IN [delivered |-> delivered, viol |-> acc.viol \cup v1 \cup v2 \cup v3 \cup v4 \cup v6 \cup v7 \cup vx, stall |-> stall, finished |-> acc.finished \/ fin,
-            sawerr |-> acc.sawerr \/ c.ret < 0, space_short |-> acc.space_short \/ (c.ret = 2)]
-      a == FoldLeft(step, [delivered |-> <<>>, viol |-> {}, stall |-> 0, finished |-> FALSE, sawerr |-> FALSE, space_short |-> FALSE], Range1(ncalls))
+            sawerr |-> acc.sawerr \/ c.ret < 0, space_short |-> acc.space_short \/ (c.ret = 2), drift |-> acc.drift \cup m2, cov |-> cov]
+      a == FoldLeft(step, [delivered |-> <<>>, viol |-> {}, stall |-> 0, finished |-> FALSE, sawerr |-> FALSE, space_short |-> FALSE, drift |-> {}, cov |-> {}], Range1(ncalls))
       \* I5 completion: a valid stream, fully supplied, with space always offered, must finish
       v5 == IF s.end.why = "fault" THEN {<<ncalls, "C05-memory-fault-in-call">>}
             ELSE IF s.end.why = "stalled" THEN {<<ncalls, "I6-no-progress-with-input-and-space-available">>}
@@ -58,7 +75,7 @@ JudgeRun(g, s, ref) ==
       \* an invalid single-fault stream must be reported, with the documented class (only when the spec agrees that the producer's
       \* injected fault made the stream invalid: shortening a code of an incomplete set can leave a perfectly valid stream)
       v8 == IF s.expect_ret # 0 /\ ref.tag = "Invalid" /\ ~a.sawerr /\ s.complete_supply /\ ~a.space_short THEN {<<ncalls, "I3-injected-fault-not-reported">>} ELSE {}
-  IN [scn |-> s.scn, viol |-> SetToSeq(a.viol \cup v5 \cup v8), ref |-> ref.tag, class |-> ref.class, lenient |-> lenient, finished |-> a.finished,
+  IN [scn |-> s.scn, viol |-> SetToSeq(a.viol \cup v5 \cup v8), drift |-> SetToSeq(a.drift), cov |-> SetToSeq(a.cov), ref |-> ref.tag, class |-> ref.class, lenient |-> lenient, finished |-> a.finished,
       nout |-> Len(ref.out), delivered |-> Len(a.delivered),
       nblocks |-> IF "d" \in DOMAIN ref THEN Len(ref.d.blocks) ELSE 0,
       types |-> IF "d" \in DOMAIN ref THEN [i \in 1..Len(ref.d.blocks) |-> ref.d.blocks[i].type] ELSE <<>>,
